@@ -113,7 +113,7 @@ def check_runs(scn, runs, model_ok, name):
                     owners.add(o[0])
                 if o[1] == pg.CBEXC:
                     out['n_cbexc'] += 1
-                    if o[4] is not None and o[0] in o[4][:-1]:   # the owner is below the top of the stack the hook must find
+                    if o[4] and o[4][-1] != o[0] and o[0] in o[4]:   # the hook must find another process on top and the owner below it
                         out['n_cbexc_after_sandwich'] += 1
                 elif pg.sandwiched(o[3]):
                     out['n_sandwich'] += 1
